@@ -48,8 +48,8 @@ RULE = (
 ASSUMPTIONS = [
     "the model is a fresh GroupBy running the same code: a defect that does not depend on history cancels out (by design: that is C03/C01 material)",
     "cross-invariants read private attributes through getattr with defaults; if they disappear the invariant is skipped and reported as a probe",
-    "only failures the pool can produce are injected (no allocation failure at arbitrary statements inside _unify_group_key_chunks)",
-    "tasks are atomic",
+    "injected failures: what the pool can produce, plus a MemoryError / Ctrl-C before a drawn admissible Python line of the library (line-granular; never inside a kernel or inside pandas / NumPy; DESIGN 9.4)",
+    "task bodies are atomic in the task-atomic pool model and pre-empted only at Python line events of groupby_lib frames in the pre-emptive model (one fault-free run in three); compiled kernels and pandas / NumPy calls are never split",
 ]
 EXPECTED_PROBES = [
     "several_live_objects", "state_chunked+pointers", "state_chunked-unified", "state_contiguous-after-unify", "step_after_layout_change", "copy_ctor", "class_form",
